@@ -13,7 +13,7 @@ def run_predicate(chk, tier, sd=None):
     shards = vlib.NCPU
     # exhaustive: every (path, root) over {'/','a','b','.'} up to L characters: L=5 -> 1.86 million pairs, L=6 -> 29.8 million
     ex_len = 5 if tier == "quick" else 6
-    rnd = 1000000 if tier == "quick" else 8000000
+    rnd = 1000000 if tier == "quick" else 40000000
     per = (rnd + shards - 1) // shards
     cmds = [[binp, "--seed", str(chk.seed * 1000 + i), "--cases", str(per), "--exhaustive", str(ex_len), "--shard", str(i), "--shards", str(shards)]
             for i in range(shards)]
